@@ -168,6 +168,13 @@ fn main() {
                                "alive": alive_now(())}));
                 continue;
             }
+            if pick == 9 && rng.chance(1, 3) {
+                // accept() itself fails; the listener stays healthy
+                listener.accept_error();
+                settle().await;
+                w.event(json!({"ev": "accepterr", "alive": alive_now(())}));
+                continue;
+            }
             if pick <= 2 {
                 // a datagram
                 let mut b = body(&mut rng);
